@@ -56,8 +56,13 @@ def const_shape(max_turns):
                       st.floats(min_value=20, max_value=200), st.booleans()).map(
         lambda t: {"shape": "helix", "r": t[0], "a0": t[1], "r1": t[0], "sweep": t[2],
                    "turns": 1, "dz": -t[3] if t[4] else t[3], "zgiven": True, "full": False})
+    steep_arc = st.tuples(st.floats(min_value=0.5, max_value=3.0), ang,
+                          st.floats(min_value=0.05, max_value=0.8),
+                          st.floats(min_value=15, max_value=150), st.booleans()).map(
+        lambda t: {"shape": "arc", "r": t[0], "a0": t[1], "sweep": t[2],
+                   "dz": -t[3] if t[4] else t[3], "zgiven": True, "full": False})
     return hist.equally(
-        steep,
+        steep, steep_arc,
         st.fixed_dictionaries({"shape": st.just("arc"), "r": rad, "a0": ang, "sweep": sweep,
                                "dz": dz, "zgiven": st.booleans(), "full": st.sampled_from([False, False, True])}),
         st.fixed_dictionaries({"shape": st.just("arc_radius"), "dx": nz, "dy": off,
